@@ -59,9 +59,19 @@
 (*         Whatever it is, every contacted endpoint receives it unmodified  *)
 (*         (label field same) and the caller's message is unchanged when    *)
 (*         Sign returns (label field kept).                                 *)
+(*   Validity boundaries of the server certificate (all issued by CA1 for   *)
+(*   the right name): "expired1m" / "expired4m" / "expired10m" (NotAfter     *)
+(*   that long ago), "notyet1m" / "notyet4m" (NotBefore that far ahead) are  *)
+(*   not valid now - impostors; "valid2m" (NotAfter two minutes ahead) is.   *)
 (*   A bundle may hold two DIFFERENT CA certificates with the same subject  *)
 (*   name ("ca1" and "ca1b": a CA rolled over to a new key): a server      *)
 (*   chaining to either is genuine iff that certificate is configured.      *)
+(*   next  outcome vector of a SECOND signing call on the same Signer       *)
+(*         (<<>> = there is none): after the first call has returned, the   *)
+(*         endpoints behave as next says (one that failed may have          *)
+(*         recovered) and Sign is called again (action NextCall).  Every    *)
+(*         call is judged by the same formulas against ITS vector: contacts *)
+(*         in the configured order, result from its first good endpoint.   *)
 (*   tries number of tries the retry interceptor makes per endpoint (with   *)
 (*         a backoff delay between them); several tries at one endpoint    *)
 (*         are one contact                                                  *)
@@ -91,6 +101,7 @@ CONSTANTS MaxN,         \* longest endpoint list explored
           Bundles,      \* CA bundle variants explored: records [cas |-> set of CA names, lay |-> file layout]
           Ctxs,         \* request-context budgets explored: subset of {"wide", "tight", "none", "ample"}
           Reqs,         \* request content classes explored
+          Calls,        \* numbers of signing calls per Signer explored (subset of {1, 2})
           Tries,        \* tries per endpoint explored (subset of 1..3)
           Hists,        \* process histories explored: subset of {"none", "before", "between", "signer", "rotate"}
           BackoffCfgs,  \* backoff configurations explored: records [base, max, mult, jit] (jit in tenths)
@@ -120,13 +131,14 @@ NoLbl == [op |-> "init", hang |-> FALSE, kept |-> TRUE, ep |-> 0, hs |-> "none",
 ---------------------------------------------------------------------------
 \* transport security, design level: what the TLS client of the RA does with the server it reaches.
 \* Client: RootCAs = exactly the configured bundle, ServerName = the endpoint name, versions {1.2, 1.3}.
-Issuer(e)     == CASE e.id \in {"ca1", "expired", "wrongname"} -> "ca1" [] e.id = "ca2" -> "ca2"
+TimeBad       == {"expired", "expired1m", "expired4m", "expired10m", "notyet1m", "notyet4m"}   \* now is outside the validity period
+Issuer(e)     == CASE e.id \in {"ca1", "wrongname", "valid2m"} \cup TimeBad -> "ca1" [] e.id = "ca2" -> "ca2"
                    [] e.id = "ca1b" -> "ca1b" [] e.id = "foreign" -> "caX" [] e.id = "hosttrusted" -> "caH" [] OTHER -> "self"
 ServerVers(e) == CASE e.vmax = "tls13" -> {10, 11, 12, 13} [] e.vmax = "tls12" -> {10, 11, 12} [] OTHER -> {10, 11}
 ClientVers    == {12, 13}
 Negotiated(e) == ClientVers \cap ServerVers(e)                \* the highest common version is used
 VerifyPeer(e, b) == /\ Issuer(e) \in b.cas                      \* chain building ends in a configured root (host roots are not used)
-                    /\ e.id # "expired"                         \* validity period
+                    /\ e.id \notin TimeBad                      \* validity period, evaluated at the current time
                     /\ e.id # "wrongname"                       \* subject alternative names cover the endpoint
 \* Client certificate: whenever the server asks, the client sends the configured certificate (whatever CA names the
 \* server hints at); a server that verifies client certificates accepts it iff its pool holds the issuer.
@@ -136,7 +148,8 @@ ServerTakes(e)  == e.pol \in {"verifyifgiven", "require"} => HintOf(e) = "own"
 Handshake(e, b) == e.id = "plain" \/ (Negotiated(e) # {} /\ VerifyPeer(e, b) /\ ServerTakes(e))
 
 \* transport security, property level (C18): who is a genuine CA server
-Genuine(e, b)     == e.id \in {"ca1", "ca2", "ca1b"} /\ e.id \in b.cas   \* issued by a configured CA for this endpoint, valid now
+Genuine(e, b)     == \/ e.id \in {"ca1", "ca2", "ca1b"} /\ e.id \in b.cas
+                     \/ e.id = "valid2m" /\ "ca1" \in b.cas          \* still valid, however soon it expires   \* issued by a configured CA for this endpoint, valid now
 HandshakeOk(e, b) == e.id = "plain" \/ (Genuine(e, b) /\ e.vmax \in {"tls12", "tls13"} /\ ServerTakes(e))
 \* request contexts that end before anybody may have answered
 AtEntry       == env.ctx \in {"cancelled", "expired", "expiredwarm"}
@@ -161,10 +174,14 @@ Inst(t, m) == [id |-> t.id, vmax |-> t.vmax, pol |-> t.pol, hint |-> t.hint, cls
 
 AllCAs    == {"ca1", "ca2", "caX"}
 Others(b) == AllCAs \ b.cas                        \* the CA files a history step loads: everything this signer must NOT trust
-NoEnv     == [ctx |-> "wide", req |-> "full", tries |-> 1, hist |-> "none", loaded |-> {}, hdone |-> TRUE]
+NoEnv     == [next |-> <<>>, ctx |-> "wide", req |-> "full", tries |-> 1, hist |-> "none", loaded |-> {}, hdone |-> TRUE]
 InitCase == /\ bundle \in Bundles
-            /\ \E c \in Ctxs : \E h \in Hists : \E t \in Tries : \E q \in Reqs : env = [ctx |-> c, req |-> q, tries |-> t, hist |-> h, loaded |-> {}, hdone |-> (h = "none" /\ c # "expiredwarm")]
             /\ \E n \in 0..MaxN : \E ts \in [1..n -> Templates] : eps = [m \in 1..n |-> Inst(ts[m], m)]
+            /\ \E c \in Ctxs : \E h \in Hists : \E t \in Tries : \E q \in Reqs : \E k \in Calls :
+                 \E ts2 \in (IF k = 2 /\ Len(eps) > 0 THEN [1..Len(eps) -> Templates] ELSE {<<>>}) :
+                   env = [ctx |-> c, req |-> q, tries |-> t, hist |-> h, loaded |-> {}, hdone |-> (h = "none" /\ c # "expiredwarm"),
+                          next |-> [m \in 1..Len(ts2) |-> Inst(ts2[m], m)]]
+            /\ env.next # <<>> => (env.ctx = "wide" /\ env.hist = "none")
             /\ env.ctx \in {"cancelled", "expired", "expiredwarm", "cancelmid"} => (env.hist = "none" /\ env.tries = 1)
             /\ env.ctx = "cancelmid" => \E m \in 1..Len(eps) : eps[m].cls = "deadline"
             /\ env.ctx \in {"tight", "none", "ample", "expiredwarm"} => (env.hist = "none" /\ \A m \in 1..Len(eps) : eps[m].cls # "deadline")
@@ -232,7 +249,14 @@ Backoff == /\ pc = "bo"
                                    max |-> Val(SMax(Draws(c, a))), bound |-> Val(c.max * (10 + c.jit))]]
            /\ UNCHANGED <<eps, bundle, env, pc, i, contacted, result>>
 
-Next == OtherConf \/ PriorCall \/ Construct \/ Contact \/ Return \/ Backoff
+\* the same Signer is asked again; meanwhile the endpoints have changed their behaviour to env.next
+NextCall == /\ pc = "returned" /\ env.next # <<>>
+            /\ eps' = env.next /\ env' = [env EXCEPT !.next = <<>>]
+            /\ pc' = "loop" /\ i' = 1 /\ contacted' = <<>> /\ result' = Pending
+            /\ last' = [NoLbl EXCEPT !.op = "nextcall"]
+            /\ UNCHANGED bundle
+
+Next == NextCall \/ OtherConf \/ PriorCall \/ Construct \/ Contact \/ Return \/ Backoff
 Spec == Init /\ [][Next]_vars
 
 ---------------------------------------------------------------------------
